@@ -106,38 +106,30 @@ def _split_clear(g_full_rows):
     return n >= 2 and int(g_full_rows.max() - g_full_rows.min()) + 1 > n
 
 
-def split_potential(g):
-    """Number of piece kinds (0..7) that have a placement on board g completing non-adjacent rows at once
-    (plan bias towards the rare 'a row between two cleared rows survives' case)."""
-    P = pieces()
-    kinds = 0
-    for k in range(P.shape[0]):
-        found = False
-        for r in range(4):
-            piece = P[k, r]
-            if piece.any(axis=1).sum() < 3:
+def split_ready(g):
+    """Plan-bias feature: how close board g is to a position where one tall piece dropped into a free
+    column w completes rows a and a+2 but not the row between them (the rare 'a row between two cleared
+    rows survives' case)."""
+    R, C = g.shape
+    miss = [set(np.flatnonzero(~g[r]).tolist()) for r in range(R)]
+    tot = 0
+    for a in range(R - 2):
+        for w in range(C):
+            if g[: a + 3, w].any():
                 continue
-            cells = np.argwhere(piece)
-            for x in range(g.shape[1]):
-                if not is_legal(g, piece, x):
-                    continue
-                y = drop(g, piece, x)
-                h = g.copy()
-                for i, j in cells:
-                    h[y + i, x + j] = True
-                if _split_clear(np.flatnonzero(h.all(axis=1))):
-                    found = True
-                    break
-            if found:
-                break
-        kinds += found
-    return kinds
+            ma, mb, mc = miss[a], miss[a + 1], miss[a + 2]
+            if w in ma and w in mb and w in mc and len(mb) >= 2:
+                if len(ma) == 1 and len(mc) == 1:
+                    tot += 40
+                elif len(ma) <= 2 and len(mc) <= 2:
+                    tot += 12
+    return tot
 
 
-def greedy_score(occ, piece, x, lookahead=False):
+def greedy_score(occ, piece, x):
     """Heuristic value of a legal placement (plan bias only, never an oracle): complete rows (several at
-    once and non-adjacent ones score extra), few holes, low and flat stack, do not stack to the top; with
-    `lookahead` also prefer boards on which many piece kinds could clear non-adjacent rows next."""
+    once and non-adjacent ones score extra), few holes, low and flat stack, do not stack to the top,
+    build positions from which non-adjacent rows can be cleared at once."""
     y = drop(occ, piece, x)
     g = occ.copy()
     for i, j in np.argwhere(piece):
@@ -151,9 +143,9 @@ def greedy_score(occ, piece, x, lookahead=False):
     heights = np.where(g.any(axis=0), R - np.argmax(g, axis=0), 0)
     holes = int(sum((~g[R - heights[c]:, c]).sum() for c in range(C)))
     bump = int(np.abs(np.diff(heights)).sum())
-    pot = 30 * split_potential(g) if lookahead else 0
+    ready = (1 if C <= 6 else 3) * split_ready(g)
     danger = 1000 if (n == 0 and heights.max() >= R - 1) else 0
-    return 10 * n * n + (100 if split else 0) + pot - 3 * holes - int(heights.sum()) - bump - danger
+    return 10 * n * n + (100 if split else 0) + ready - 3 * holes - int(heights.sum()) - bump - danger
 
 
 def _stat(line):
@@ -204,7 +196,7 @@ class M(Model):
     # ---- plan bias ('solve' mode of the drivers)
     def solve_action(self, s, r=0):
         """Greedy line-clearing placement; `r` diversifies: ties among the best placements are broken by
-        r, and every fourth call plays a second-best placement (leaves holes that later give clears of
+        r, and every eighth call plays a second-best placement (leaves holes that later give clears of
         non-adjacent rows).  None when nothing is legal."""
         idx = self._idx(s)
         if not (0 <= idx < self.P.shape[0]):
@@ -214,12 +206,11 @@ class M(Model):
         if not pool:
             return None
         r = int(r)
-        look = self.C <= 6  # narrow boards: steer towards clears of non-adjacent rows
-        scores = [greedy_score(occ, rots[rr], xx, lookahead=look) for rr, xx in pool]
+        scores = [greedy_score(occ, rots[rr], xx) for rr, xx in pool]
         ranks = sorted(set(scores), reverse=True)
-        want = ranks[0] if r % 4 else ranks[min(1, len(ranks) - 1)]
+        want = ranks[0] if r % 8 else ranks[min(1, len(ranks) - 1)]
         group = [a for a, sc in zip(pool, scores) if sc == want]
-        return np.asarray(group[(r // 4) % len(group)], np.int32)
+        return np.asarray(group[(r // 8) % len(group)], np.int32)
 
     # ---- C04 / C05
     def legal(self, s):
@@ -347,6 +338,8 @@ class M(Model):
             return []
         out = []
         g2, n, y = place_and_clear(occ, piece, x)
+        if n:
+            _stat(f"Tetris stochastic_ok clear {n}")
         got = self._occ(s2)
         if not np.array_equal(got, g2):
             out.append(("board after drop and line clearing differs from the rule model",
